@@ -38,7 +38,21 @@ def shards(tier, seed):
     return out
 
 
+def alias_probe(rnd, op=None):
+    """Text given as a float tuple over {0.0, 1.0} (fractions of full scale): equal and hash-equal to the int tuple
+    (1, 0, 0) etc., which denotes a different colour - the shape that exposes a cache keyed on ==."""
+    bits = [rnd.choice([0.0, 1.0]) for _ in range(3)]
+    if sum(bits) in (0.0, 3.0):
+        bits[rnd.randrange(3)] = 1.0 - bits[0]
+    t = tuple(int(255 * x) for x in bits)
+    b = rnd.choice([(255, 255, 255), (0, 0, 0), (40, 40, 40), (230, 230, 230)])
+    return {"op": op or rnd.choice(["fix", "label", "bulk"]), "text": list(bits), "tk": "tuple", "bg": list(b), "bk": "tuple",
+            "large": rnd.random() < 0.3, "mode": rnd.randrange(3), "vr": rnd.random() < 0.3, "t": list(t), "b": list(b), "alias": True}
+
+
 def make_probe(rnd, op=None):
+    if rnd.random() < 0.12:
+        return alias_probe(rnd, op)
     for _ in range(50):
         large, vr = rnd.random() < 0.4, rnd.random() < 0.4
         r = rnd.random()
@@ -73,6 +87,12 @@ def history_ops(rnd, probe, n):
     """Operations built *around* the probe."""
     t, b = tuple(probe["t"]), tuple(probe["b"])
     ops = []
+    if probe.get("alias"):
+        # the hash-equal spellings with another meaning, issued before the probe
+        ints = [int(x) for x in probe["text"]]
+        ops.append(("fix", ints, "tuple", probe["bg"], probe["bk"], probe["large"], probe["mode"], probe["vr"]))
+        ops.append(("fix", [bool(x) for x in ints], "tuple", probe["bg"], probe["bk"], probe["large"], probe["mode"], probe["vr"]))
+        ops.append(("label", ints, probe["b"]))
     for _ in range(n):
         k = rnd.randrange(12)
         if k == 0:    # same text, other background
@@ -237,6 +257,16 @@ def histories(shard, rec, lib, scratch):
                 if res[pos] != alone:
                     rec.violation(f"probe {probe_desc(probe)} at bulk position {pos} gives {res[pos]!r} but {alone!r} alone", dict(case, how="bulk-position", pos=pos))
                     break
+            # a 2-element entry after 3-element large=True entries (a size flag must not leak between entries)
+            if not probe["large"]:
+                me2 = (me[0], me[1])
+                alone2 = lib.make_readable_bulk([me2], mode=probe["mode"], very_readable=probe["vr"])[0]
+                lst = [("#777777", "#ffffff", True), ((90, 90, 90), (100, 100, 100), True), me2, ("#888", "#fff"), me2]
+                res = lib.make_readable_bulk(lst, mode=probe["mode"], very_readable=probe["vr"])
+                rec.count("bulk_position_observations", 2)
+                if res[2] != alone2 or res[4] != alone2:
+                    rec.violation(f"probe {probe_desc(probe)} as a 2-element bulk entry after large-text entries gives {res[2]!r} / {res[4]!r} but {alone2!r} alone",
+                                  dict(case, how="bulk-after-large"))
         # (d) repeated on one object + object fingerprints
         pair = lib.ColorPair(to_py(probe["text"], probe["tk"]), to_py(probe["bg"], probe["bk"]), large_text=probe["large"])
         before = obj_fingerprint(pair)
